@@ -449,5 +449,46 @@ def _is_ancestor(par, anc, b):
     return False
 
 
+@driver
+def range_bounds_initialised(args):
+    """Range(lo, hi) on the real translator: `int end (hi)` is a declaration of Range's own block, and a block's declarations are emitted before
+    its statements; so the code that computes a bound must not be a statement of that block (else the bound is read before it is computed)."""
+    import func_adl_xAOD.common.statement as statement
+    from func_adl_xAOD.common.ast_to_cpp_translator import query_ast_visitor
+    real = query_ast_visitor.call_Range
+    found = []
+
+    def wrapper(self, node, a):
+        r = real(self, node, a)
+        blocks = [self._gc._block] + list(_all_blocks(self._gc._block))
+        for b in blocks:
+            for v in b._variables:
+                init = getattr(v, "_initial_value", None)
+                if init is None or not v.as_cpp().startswith(("begin", "end")):
+                    continue
+                # statements of b (at any depth) that assign the variable the initialiser reads
+                for inner in [b] + list(_all_blocks(b)):
+                    for s in inner._statements:
+                        if isinstance(s, statement.set_var) and s._target.as_cpp() == init.as_cpp():
+                            found.append("`%s %s (%s);` is declared at the top of Range's block, but `%s` is computed by a statement of that "
+                                         "block (`%s = %s;`), i.e. after the declaration" % (v.cpp_type(), v.as_cpp(), init.as_cpp(), init.as_cpp(),
+                                                                                             s._target.as_cpp(), s._value.as_cpp()))
+        return r
+
+    query_ast_visitor.call_Range = wrapper
+    try:
+        for qs in ["lambda e: Range(0, e.Jets('A').Count()).Select(lambda i: i * 2)",
+                   "lambda e: Range(e.Jets('A').Count(), 10).Select(lambda i: i * 2)",
+                   "lambda e: e.Jets('A').Select(lambda j: Range(0, e.Tracks('T').Count()).Select(lambda i: j.pt() * i))",
+                   "lambda e: e.Jets('A').Select(lambda j: Range(0, 10).Select(lambda i: j.pt() * i))"]:
+            found.clear()
+            translate(_dataset().Select(qs))
+            if found:
+                return True, "%s: %s" % (qs, found[0])
+    finally:
+        query_ast_visitor.call_Range = real
+    return False, "the bounds of every probe Range are computed before Range's block is entered"
+
+
 if __name__ == "__main__":
     main()
